@@ -687,4 +687,367 @@ Section TrieProofs.
           destruct (is_pre_comparable _ _ _ C Hk); congruence. }
         rewrite (Hkids false l H3), (Hkids true h H4). reflexivity.
   Qed.
+
+  (* ================================================================ facts about the map *)
+  Lemma lookup_set : forall (m : smap) p v q,
+    lookup (set P m p v) q = if beq p q then Some v else lookup m q.
+  Proof.
+    induction m as [|[k w] m IH]; intros p v q; simpl.
+    - destruct (beq p q); reflexivity.
+    - destruct (beq k p) eqn:E; simpl.
+      + apply beq_eq in E. subst k. destruct (beq p q); reflexivity.
+      + rewrite IH. destruct (beq k q) eqn:E2; auto.
+        destruct (beq p q) eqn:E3; auto.
+        apply beq_eq in E2. apply beq_eq in E3. subst. rewrite beq_refl in E. discriminate.
+  Qed.
+
+  Lemma set_keys : forall (m : smap) p v k,
+    In k (map fst (set P m p v)) -> k = p \/ In k (map fst m).
+  Proof.
+    induction m as [|[k0 w] m IH]; intros p v k H; simpl in *.
+    - destruct H as [H|[]]; auto.
+    - destruct (beq k0 p) eqn:E; simpl in H.
+      + destruct H; auto.
+      + destruct H as [H|H]; auto. apply IH in H. tauto.
+  Qed.
+
+  Lemma set_NoDup : forall (m : smap) p v, NoDup (map fst m) -> NoDup (map fst (set P m p v)).
+  Proof.
+    induction m as [|[k w] m IH]; intros p v H; simpl.
+    - repeat constructor. intros [].
+    - inversion H; subst. destruct (beq k p) eqn:E; simpl.
+      + constructor; auto.
+      + constructor; auto. intros Hin. apply set_keys in Hin. destruct Hin as [Hin|Hin]; auto.
+        subst. rewrite beq_refl in E. discriminate.
+  Qed.
+
+  Lemma set_length : forall (m : smap) p v,
+    length (set P m p v) = match lookup m p with Some _ => length m | None => S (length m) end.
+  Proof.
+    induction m as [|[k w] m IH]; intros p v; simpl; auto.
+    destruct (beq k p); simpl; auto. rewrite IH. destruct (lookup m p); reflexivity.
+  Qed.
+
+  Lemma lookup_notin : forall (m : smap) q, ~ In q (map fst m) -> lookup m q = None.
+  Proof.
+    intros m q H. apply lookup_None. intros e He E. apply H. rewrite <- E. apply in_map. exact He.
+  Qed.
+
+  Lemma lookup_None_notin : forall (m : smap) q, lookup m q = None -> ~ In q (map fst m).
+  Proof.
+    induction m as [|[k w] m IH]; intros q H; simpl in *; auto.
+    destruct (beq k q) eqn:E; [discriminate|].
+    intros [Hk|Hin]; [subst; rewrite beq_refl in E; discriminate|]. eapply IH; eauto.
+  Qed.
+
+  Lemma lookup_In : forall (m : smap) q v, lookup m q = Some v -> In (q, v) m.
+  Proof.
+    induction m as [|[k w] m IH]; intros q v H; simpl in *; [discriminate|].
+    destruct (beq k q) eqn:E.
+    - apply beq_eq in E. inversion H. subst. auto.
+    - right. auto.
+  Qed.
+
+  Lemma lookup_del : forall (m : smap) p q,
+    NoDup (map fst m) -> lookup (del P m p) q = if beq p q then None else lookup m q.
+  Proof.
+    induction m as [|[k w] m IH]; intros p q H; simpl.
+    - destruct (beq p q); reflexivity.
+    - inversion H; subst. destruct (beq k p) eqn:E; simpl.
+      + apply beq_eq in E. subst k. destruct (beq p q) eqn:E2; auto.
+        apply beq_eq in E2. subst q. apply lookup_notin; auto.
+      + rewrite IH by auto. destruct (beq k q) eqn:E2; auto.
+        destruct (beq p q) eqn:E3; auto.
+        apply beq_eq in E2. apply beq_eq in E3. subst. rewrite beq_refl in E. discriminate.
+  Qed.
+
+  Lemma del_keys : forall (m : smap) p k, In k (map fst (del P m p)) -> In k (map fst m).
+  Proof.
+    induction m as [|[k0 w] m IH]; intros p k H; simpl in *; auto.
+    destruct (beq k0 p); simpl in *; auto. destruct H; eauto.
+  Qed.
+
+  Lemma del_NoDup : forall (m : smap) p, NoDup (map fst m) -> NoDup (map fst (del P m p)).
+  Proof.
+    induction m as [|[k w] m IH]; intros p H; simpl; auto.
+    inversion H; subst. destruct (beq k p); simpl; auto.
+    constructor; auto. intros Hin. apply del_keys in Hin. contradiction.
+  Qed.
+
+  Lemma del_length : forall (m : smap) p v,
+    lookup m p = Some v -> length m = S (length (del P m p)).
+  Proof.
+    induction m as [|[k w] m IH]; intros p v H; simpl in *; [discriminate|].
+    destruct (beq k p); simpl; auto. f_equal. eapply IH; eauto.
+  Qed.
+
+  Lemma perm_filter : forall (A : Type) (f : A -> bool) l l',
+    Permutation l l' -> Permutation (filter f l) (filter f l').
+  Proof.
+    intros A f l l' H. induction H; simpl.
+    - constructor.
+    - destruct (f x); auto.
+    - destruct (f x), (f y); auto. constructor.
+    - eapply perm_trans; eauto.
+  Qed.
+
+  (* two duplicate-free association lists with the same lookups are permutations of each other *)
+  Lemma equiv_perm : forall (m1 m2 : smap),
+    NoDup (map fst m1) -> NoDup (map fst m2) ->
+    (forall q, lookup m1 q = lookup m2 q) -> Permutation m1 m2.
+  Proof.
+    induction m1 as [|[k v] r IH]; intros m2 N1 N2 H.
+    - destruct m2 as [|[k v] r]; [constructor|].
+      specialize (H k). simpl in H. rewrite beq_refl in H. discriminate.
+    - inversion N1 as [|? ? Hk Nr]; subst.
+      assert (Hin : In (k, v) m2).
+      { apply lookup_In. rewrite <- H. simpl. rewrite beq_refl. reflexivity. }
+      apply in_split in Hin. destruct Hin as (a & b & ->).
+      apply Permutation_cons_app.
+      rewrite map_app in N2. simpl in N2.
+      pose proof (NoDup_remove_1 _ _ _ N2) as N2'. pose proof (NoDup_remove_2 _ _ _ N2) as Hk2.
+      rewrite <- map_app in N2', Hk2.
+      apply IH; auto.
+      intros q. destruct (beq k q) eqn:E.
+      + apply beq_eq in E. subst q. rewrite (lookup_notin r k Hk), (lookup_notin (a ++ b) k Hk2).
+        reflexivity.
+      + specialize (H q). simpl in H. rewrite E in H. rewrite H.
+        rewrite !lookup_app. simpl. rewrite E. reflexivity.
+  Qed.
+
+  (* ================================================================ the refinement invariant *)
+  Local Notation rootT := (root bits P).
+  Local Notation countT := (count bits P).
+
+  Definition Inv (t : btable P) (m : smap) : Prop :=
+    wf [] (rootT t) /\
+    (forall q, nlookup (rootT t) q = lookup m q) /\
+    NoDup (map fst m) /\
+    (forall q ps, lookup m q = Some ps -> ps <> []) /\
+    countT t = Z.of_nat (length m).
+
+  Lemma Inv_empty : Inv (b_empty P) [].
+  Proof.
+    unfold Inv. simpl. repeat split; auto. constructor. intros q ps H. discriminate.
+  Qed.
+
+  Lemma Inv_equiv : forall t m1 m2,
+    Inv t m1 -> NoDup (map fst m2) -> (forall q, lookup m1 q = lookup m2 q) -> Inv t m2.
+  Proof.
+    intros t m1 m2 (W & L & N & E & C) N2 H.
+    unfold Inv. repeat split; auto.
+    - intros q. rewrite L. apply H.
+    - intros q ps Hq. rewrite <- H in Hq. eauto.
+    - rewrite C. f_equal. apply Permutation_length. apply equiv_perm; auto.
+  Qed.
+
+  Lemma Inv_add : forall t m p a,
+    Inv t m -> Inv (t_addPath bits P beq bcontains lcp bitAt blen t p a) (spec_add P m p a).
+  Proof.
+    intros t m p a (W & L & N & E & C).
+    destruct (addPath_ok (rootT t) [] p a W eq_refl) as (W' & L' & S').
+    unfold t_addPath, b_addPath in *.
+    destruct (addPath bits P beq bcontains lcp bitAt blen (rootT t) p a) as [r isNew].
+    cbn [fst snd] in *. unfold Inv, spec_add. cbn [root count].
+    split; auto. split; [|split; [|split]].
+    - intros q. rewrite L', lookup_set, !L. reflexivity.
+    - apply set_NoDup; auto.
+    - intros q ps. rewrite lookup_set. destruct (beq p q).
+      + intros H. inversion H. destruct (lookup m p) as [l0|]; [|discriminate].
+        destruct l0; discriminate.
+      + eauto.
+    - rewrite set_length, S', L, C. destruct (lookup m p); [reflexivity|].
+      rewrite Nat2Z.inj_succ. reflexivity.
+  Qed.
+
+  Lemma lookup_self_None : forall (m : smap) p q,
+    lookup m p = None -> (if beq p q then None else lookup m q) = lookup m q.
+  Proof.
+    intros m p q H. destruct (beq p q) eqn:E; auto. apply beq_eq in E. subst. auto.
+  Qed.
+
+  Lemma Inv_remove : forall t m p a,
+    Inv t m -> Inv (t_removePath bits P peq beq bitAt blen t p a) (spec_remove P peq m p a).
+  Proof.
+    intros t m p a (W & L & N & E & C).
+    destruct (removePath_ok (rootT t) [] p a W) as (W' & L' & S').
+    unfold t_removePath, b_removePath in *.
+    destruct (removePath bits P peq beq bitAt blen (rootT t) p a) as [r fin].
+    cbn [fst snd] in *. unfold Inv, spec_remove. cbn [root count].
+    rewrite L in *. destruct (lookup m p) as [ps|] eqn:Hp; cbn [rem_result] in *.
+    - destruct (is_nil P (remove_first P peq a ps)) eqn:En; subst fin.
+      + split; auto. split; [|split; [|split]].
+        * intros q. rewrite L', lookup_del, L by auto. reflexivity.
+        * apply del_NoDup; auto.
+        * intros q ps0. rewrite lookup_del by auto. destruct (beq p q); [discriminate|eauto].
+        * rewrite C, (del_length m p ps Hp), Nat2Z.inj_succ. lia.
+      + split; auto. split; [|split; [|split]].
+        * intros q. rewrite L', lookup_set, L. reflexivity.
+        * apply set_NoDup; auto.
+        * intros q ps0. rewrite lookup_set. destruct (beq p q); [|eauto].
+          intros H. inversion H. subst ps0. intros Hnil. rewrite Hnil in En. discriminate.
+        * rewrite set_length, Hp. exact C.
+    - subst fin. split; auto. split; [|split; [|split]]; auto.
+      intros q. rewrite L', L. apply lookup_self_None; auto.
+  Qed.
+
+  Lemma subst_first_nonnil : forall o nw (ps : list P), ps <> [] -> subst_first P peq o nw ps <> [].
+  Proof. intros o nw [|x ps] H; [contradiction|]. simpl. destruct (peq x o); discriminate. Qed.
+
+  Lemma Inv_subst : forall t m p o nw,
+    Inv t m -> Inv (t_substPath bits P peq beq bitAt blen t p o nw) (spec_subst P peq m p o nw).
+  Proof.
+    intros t m p o nw (W & L & N & E & C).
+    destruct (substPath_ok (rootT t) [] p o nw W) as (W' & L').
+    unfold t_substPath, b_substPath in *. unfold Inv, spec_subst. cbn [root count].
+    rewrite L in *. destruct (lookup m p) as [ps|] eqn:Hp; cbn [subst_result] in *.
+    - split; auto. split; [|split; [|split]].
+      + intros q. rewrite L', lookup_set, L. reflexivity.
+      + apply set_NoDup; auto.
+      + intros q ps0. rewrite lookup_set. destruct (beq p q); [|eauto].
+        intros H. inversion H. apply subst_first_nonnil. eauto.
+      + rewrite set_length, Hp. exact C.
+    - split; auto. split; [|split; [|split]]; auto.
+      intros q. rewrite L', L. apply lookup_self_None; auto.
+  Qed.
+
+  Definition spec_removeAll (m : smap) (p : bits) (xs : list P) : smap :=
+    fold_left (fun m a => spec_remove P peq m p a) xs m.
+
+  Lemma Inv_removePaths : forall xs t m p,
+    Inv t m -> Inv (t_removePaths bits P peq beq bitAt blen t p xs) (spec_removeAll m p xs).
+  Proof.
+    unfold t_removePaths, spec_removeAll.
+    induction xs as [|x xs IH]; intros t m p H; simpl; auto.
+    apply IH. apply Inv_remove. exact H.
+  Qed.
+
+  (* removing, one after the other, all the paths stored for p empties p and nothing else *)
+  Lemma removeAll_lookup : forall ps (m : smap) p,
+    NoDup (map fst m) -> lookup m p = Some ps -> ps <> [] ->
+    forall q, lookup (spec_removeAll m p ps) q = if beq p q then None else lookup m q.
+  Proof.
+    unfold spec_removeAll.
+    induction ps as [|x xs IH]; intros m p N Hp Hne q; [contradiction|].
+    simpl. unfold spec_remove at 2. rewrite Hp. simpl. rewrite peq_refl.
+    destruct xs as [|y ys].
+    - simpl. apply lookup_del; auto.
+    - cbn [is_nil].
+      rewrite (IH (set P m p (y :: ys)) p).
+      + rewrite lookup_set. destruct (beq p q); reflexivity.
+      + apply set_NoDup; auto.
+      + rewrite lookup_set, beq_refl. reflexivity.
+      + discriminate.
+  Qed.
+
+  Lemma t_get_ok : forall t m q,
+    Inv t m ->
+    bt_get P t q = match lookup m q with Some ps => Some (q, ps) | None => None end.
+  Proof.
+    intros t m q (W & L & _). unfold bt_get, t_get.
+    pose proof (get_ok (rootT t) [] q W) as G. unfold b_get in G. rewrite G, L. reflexivity.
+  Qed.
+
+  Lemma Inv_replace : forall t m p a,
+    Inv t m ->
+    Inv (t_replacePath bits P peq beq bcontains lcp bitAt blen t p a) (spec_replace P m p a).
+  Proof.
+    intros t m p a H. pose proof H as (W & L & N & E & C).
+    unfold t_replacePath, spec_replace.
+    pose proof (t_get_ok t m p H) as G. unfold bt_get in G. rewrite G.
+    destruct (lookup m p) as [ps|] eqn:Hp.
+    - cbn [snd].
+      pose proof (Inv_removePaths ps t m p H) as H1.
+      pose proof (Inv_add _ _ p a H1) as H2.
+      eapply Inv_equiv; [exact H2| apply set_NoDup; auto |].
+      pose proof (removeAll_lookup ps m p N Hp (E _ _ Hp)) as R.
+      intros q. unfold spec_add. rewrite !lookup_set, (R p), beq_refl, (R q).
+      destruct (beq p q); reflexivity.
+    - pose proof (Inv_add t m p a H) as H2. unfold spec_add in H2. rewrite Hp in H2. exact H2.
+  Qed.
+
+  Lemma Inv_removePfx : forall t m p,
+    Inv t m -> Inv (t_removePfx bits P peq beq bitAt blen t p) (spec_removePfx P m p).
+  Proof.
+    intros t m p H. pose proof H as (W & L & N & E & C).
+    unfold t_removePfx, spec_removePfx.
+    pose proof (t_get_ok t m p H) as G. unfold bt_get in G. rewrite G.
+    destruct (lookup m p) as [ps|] eqn:Hp.
+    - cbn [snd].
+      pose proof (Inv_removePaths ps t m p H) as H1.
+      eapply Inv_equiv; [exact H1| apply del_NoDup; auto |].
+      intros q. rewrite (removeAll_lookup ps m p N Hp (E _ _ Hp)), lookup_del by auto. reflexivity.
+    - eapply Inv_equiv; [exact H| apply del_NoDup; auto |].
+      intros q. rewrite lookup_del by auto. symmetry. apply lookup_self_None; auto.
+  Qed.
+
+  Lemma Inv_step : forall t m o, Inv t m -> Inv (b_step P peq t o) (spec_step P peq m o).
+  Proof.
+    intros t m [p a|p a|p a|p|p o nw] H; unfold b_step; simpl.
+    - apply Inv_add; auto.
+    - apply Inv_remove; auto.
+    - apply Inv_replace; auto.
+    - apply Inv_removePfx; auto.
+    - apply Inv_subst; auto.
+  Qed.
+
+  Lemma Inv_fold : forall ops t m,
+    Inv t m -> Inv (fold_left (b_step P peq) ops t) (fold_left (spec_step P peq) ops m).
+  Proof.
+    induction ops as [|o ops IH]; intros t m H; simpl; auto.
+    apply IH. apply Inv_step. exact H.
+  Qed.
+
+  Theorem Inv_run : forall ops, Inv (b_run P peq ops) (spec_run P peq ops).
+  Proof. intros ops. apply (Inv_fold ops (b_empty P) []). apply Inv_empty. Qed.
+
+  (* ================================================================ the refinement theorems *)
+  Theorem refines_get : forall ops q,
+    bt_get P (b_run P peq ops) q = spec_get P (spec_run P peq ops) q.
+  Proof. intros ops q. apply t_get_ok. apply Inv_run. Qed.
+
+  Lemma dump_perm : forall t m, Inv t m -> Permutation (bt_dump P t) m.
+  Proof.
+    intros t m (W & L & N & E & C). unfold bt_dump, t_dump.
+    apply equiv_perm; auto.
+    - apply (dump_NoDup (rootT t) [] W).
+    - intros q. rewrite <- L. apply (lookup_dump (rootT t) [] q W).
+  Qed.
+
+  Theorem refines_dump : forall ops,
+    Permutation (bt_dump P (b_run P peq ops)) (spec_run P peq ops) /\
+    NoDup (map fst (bt_dump P (b_run P peq ops))).
+  Proof.
+    intros ops. pose proof (Inv_run ops) as H. split; [apply dump_perm; auto|].
+    destruct H as (W & _). apply (dump_NoDup _ [] W).
+  Qed.
+
+  Theorem refines_lpm : forall ops q,
+    Permutation (bt_lpm P (b_run P peq ops) q) (spec_lpm P (spec_run P peq ops) q).
+  Proof.
+    intros ops q. pose proof (Inv_run ops) as H. pose proof H as (W & _).
+    unfold bt_lpm, t_lpm, spec_lpm.
+    pose proof (lpm_filter (rootT (b_run P peq ops)) [] q W) as F. unfold b_lpm in F. rewrite F.
+    apply perm_filter. apply (dump_perm _ _ H).
+  Qed.
+
+  Theorem refines_longer : forall ops q,
+    Permutation (bt_getLonger P (b_run P peq ops) q) (spec_longer P (spec_run P peq ops) q).
+  Proof.
+    intros ops q. pose proof (Inv_run ops) as H. pose proof H as (W & _).
+    unfold bt_getLonger, t_getLonger, spec_longer.
+    pose proof (longer_filter (rootT (b_run P peq ops)) [] q W) as F.
+    unfold b_dump, b_getLongerNode in F. rewrite F.
+    apply perm_filter. apply (dump_perm _ _ H).
+  Qed.
+
+  Theorem refines_count : forall ops,
+    bt_count P (b_run P peq ops) = Z.of_nat (length (spec_run P peq ops)).
+  Proof. intros ops. destruct (Inv_run ops) as (_ & _ & _ & _ & C). exact C. Qed.
+
+  (* the map itself never lists a prefix twice and never keeps a prefix without paths *)
+  Theorem spec_wellformed : forall ops,
+    NoDup (map fst (spec_run P peq ops)) /\
+    forall q ps, lookup (spec_run P peq ops) q = Some ps -> ps <> [].
+  Proof. intros ops. destruct (Inv_run ops) as (_ & _ & N & E & _). auto. Qed.
 End TrieProofs.
